@@ -204,7 +204,20 @@ func (c *Ctx) ruleLifecycle(rule string, want map[string]bool) {
 			pc := put.(*ssa.Call)
 			putOK = p.isGw(pc.Call.Args[1]) && x.Origin(pc.Call.Args[0]) == ssa.Value(fn.Params[0])
 		}
-		chk("puts-own-wrapper", putOK && nPut == 1, p.deferI.Pos(), "the deferred function must hand back the wrapper this request acquired, to this pool")
+		// no other hand-back outside the deferred function (an early release plus the deferred one puts the wrapper twice)
+		nOutside := 0
+		eachInstrDeep(fn, func(g *ssa.Function, in ssa.Instruction) {
+			if g == lit {
+				return
+			}
+			if cc := callCommon(in); cc != nil && fnIs(cc.StaticCallee(), pEngine, "GenginePool", "putGengineLocked") {
+				nOutside++
+			}
+		})
+		if nOutside > 0 {
+			putOK = false
+		}
+		chk("puts-own-wrapper", putOK && nPut == 1, p.deferI.Pos(), "the wrapper this request acquired must be handed back to this pool exactly once, by the deferred function only")
 		order := clr != nil && put != nil && domInstr(clr, put) && nPut == 1
 		if order {
 			_, twice := pathExists(lit, put, func(in ssa.Instruction) bool {
